@@ -202,7 +202,7 @@ var c13Corruptions = []string{"leaf", "eval_own_c0", "eval_own_c1", "eval_other_
 	"eval_own_p32", "eval_own_m32", "final_coeff0_p32", "final_coeff0_m32",
 	// the running value itself shifted by such a difference (the claimed evaluations stay the
 	// committed ones, so every Merkle path is still valid)
-	"running_value_p32", "running_value_m32",
+	"running_value_p32", "running_value_m32", "running_value_c0", "running_value_c1",
 	// two trees of one round wrong in a cancelling way (a check on sums of roots / caps cannot see it)
 	"caps_cancelling_pair", "caps_swapped"}
 
@@ -223,7 +223,10 @@ func init() {
 				for n := 4; n <= 9; n++ {
 					cs = append(cs, fw.Case{ID: fmt.Sprintf("subgroup/%d", n), Kind: "subgroup", P: map[string]any{"n": n}})
 				}
-				cs = append(cs, fw.Case{ID: "subgroup/15", Kind: "subgroup", P: map[string]any{"n": 15}})
+				// every domain size the field supports (2-adicity 32): sampled indices
+				for n := 10; n <= 32; n++ {
+					cs = append(cs, fw.Case{ID: fmt.Sprintf("subgroup/%d", n), Kind: "subgroup", P: map[string]any{"n": n}})
+				}
 				nv := 60
 				if !ctx.Quick {
 					nv = 300
@@ -267,9 +270,9 @@ func init() {
 						}
 					} else {
 						for i := 0; i < 200; i++ {
-							idxs = append(idxs, uint64(r.Intn(1<<n)))
+							idxs = append(idxs, r.Uint64()&(uint64(1)<<uint(n)-1))
 						}
-						idxs = append(idxs, 0, 1<<n-1)
+						idxs = append(idxs, 0, uint64(1)<<uint(n)-1, 1, 2, uint64(1)<<uint(n-1), uint64(1)<<uint(n-2))
 					}
 					outs := make([]gl.Variable, len(idxs))
 					res := harnRunOpt(engine.Options{Face: engine.Native}, func(api frontend.API) error {
@@ -326,6 +329,19 @@ func init() {
 						}
 						inst.Batches = append(inst.Batches, bt)
 					}
+					// hiding parameters: blinded oracles carry 4 salt elements at the END of the leaf
+					hiding := c.Int("i")%7 == 3
+					blinding := make([]bool, no)
+					if hiding {
+						for oi := range blinding {
+							blinding[oi] = oi > 0 || r.Intn(2) == 0
+							if blinding[oi] {
+								for k := 0; k < 4; k++ {
+									init[oi].Leaf = append(init[oi].Leaf, randGL(r))
+								}
+							}
+						}
+					}
 					alpha := c15RandE(r)
 					x := randGL(r)
 					reduced := []ref.E{randE(r), randE(r)}
@@ -341,10 +357,11 @@ func init() {
 					}
 					var out gl.QuadraticExtensionVariable
 					res := harnRunOpt(engine.Options{Face: engine.Native}, func(api frontend.API) error {
-						chip, _ := friChipFor(api, ref.FriParams{DegreeBits: 5, CapHeight: 4})
+						chip, cd := friChipFor(api, ref.FriParams{DegreeBits: 5, CapHeight: 4})
+						cd.FriParams.Hiding = hiding
 						var info fri.InstanceInfo
-						for _, s := range sizes {
-							info.Oracles = append(info.Oracles, fri.OracleInfo{NumPolys: uint64(s)})
+						for oi, s := range sizes {
+							info.Oracles = append(info.Oracles, fri.OracleInfo{NumPolys: uint64(s), Blinding: blinding[oi]})
 						}
 						for _, b := range inst.Batches {
 							bi := fri.BatchInfo{Point: qeConst(b.Point)}
@@ -379,6 +396,9 @@ func init() {
 						return fw.Violate("wrong_combined_value", fmt.Sprintf("oracles %v alpha %v x %d: circuit %v reference %v", sizes, alpha, x, got, want))
 					}
 					o.Inc("combinations_compared")
+					if hiding {
+						o.Inc("combinations_with_salted_leaves")
+					}
 				case "fold":
 					x := randGL(r)
 					if x == 0 {
@@ -665,10 +685,15 @@ func init() {
 							st := r.Intn(len(in.q.Steps))
 							pos := (idx >> uint(4*st)) & 15
 							in.q.Steps[st].Evals[pos] = shift32(in.q.Steps[st].Evals[pos], base13 == "eval_own_p32")
-						case "running_value_p32", "running_value_m32":
+						case "running_value_p32", "running_value_m32", "running_value":
 							last := len(in.reduced) - 1
 							x := ref.SubgroupX(in.raw%(uint64(1)<<uint(lde)), lde)
 							d := shift32(ref.EZero, base13 == "running_value_p32")
+							if base13 == "running_value" {
+								// exactly one coordinate of the running value moves
+								d = ref.EZero
+								d[co] = 1 + randGL(r)%(P-1)
+							}
 							den := ref.ESub(ref.EFrom(x), s.Inst.Batches[last].Point)
 							in.reduced[last] = ref.ESub(in.reduced[last], ref.EMul(d, den))
 						case "final_coeff0_p32", "final_coeff0_m32":
